@@ -367,10 +367,11 @@ pub fn run() {
                             b.panicking_byte_equality_checker();
                             rb.panicking_byte_equality_checker();
                         }
-                        "count" | "counterr" => {
+                        "count" | "counterr" | "countnf" => {
                             // counting checker: records the two contents it was given; reads both fully;
                             // "counterr" also fails when they differ (like byte equality)
-                            let fail = cfg.checker == "counterr";
+                            let fail = cfg.checker == "counterr" || cfg.checker == "countnf";
+                            let nf = cfg.checker == "countnf";
                             for which in 0..2 {
                                 let calls = checker_calls.clone();
                                 let log = checker_log.clone();
@@ -382,7 +383,7 @@ pub fn run() {
                                     calls.fetch_add(1, Ordering::SeqCst);
                                     log.lock().unwrap().push(format!("{}~{}", show(&a), show(&bb)));
                                     if fail && a != bb {
-                                        Err(std::io::Error::new(std::io::ErrorKind::Other, "mismatch"))
+                                        Err(std::io::Error::new(if nf { std::io::ErrorKind::NotFound } else { std::io::ErrorKind::Other }, "mismatch"))
                                     } else {
                                         Ok(())
                                     }
@@ -585,6 +586,14 @@ pub fn run() {
                             };
                             let base = file_line(r.map(Some), &mut held);
                             format!("{} hit={} pop_calls={} old={}", base, hit_kind.borrow(), pop_calls.get(), old_seen.borrow())
+                        }
+                        // the adversary of C05: somebody else deletes a published cache file
+                        "rm" => {
+                            match std::fs::remove_file(cfg.root.join(unesc_path(f[3]))) {
+                                Ok(()) => "OkUnit".to_string(),
+                                Err(e) if e.kind() == std::io::ErrorKind::NotFound => "OkUnit".to_string(),
+                                Err(e) => err_line(&e),
+                            }
                         }
                         "prune" => {
                             match kismet_cache::raw_cache::prune(cfg.root.join(f[3]), capv(f[4])) {
